@@ -57,6 +57,10 @@ def check_configops(ctx):
         sid = n + 1
         try:
             c = Config(cc.plain(cc.layout_dict(cfg, "contexts", "str")))
+            if c.calls and n % 3 == 1:
+                c = Config(list(c.calls))          # a Config built from Call objects
+            elif c.calls and n % 3 == 2:
+                c = Config(c)                      # ... or from another Config
             add({"ev": "new", "sid": sid, "cfg": cfg, "cfg2": [], "kind": "", "exc": "", "obs": obs_of(c, queries)})
         except Exception as ex:  # noqa: BLE001
             add({"ev": "new", "sid": sid, "cfg": cfg, "cfg2": [], "kind": "", "exc": type(ex).__name__, "obs": {}})
